@@ -86,8 +86,8 @@ PROPS = {
         "modules": ["ArgMapper.Props.C18"],
         "rule": "dij: >=2 edges and >=2 vertices reachable from the source.",
         "runs": {
-            "quick": [fam("dij", 800, 7), fam("dij", 300, 7, "neg"), fam("dij", 100, 5, "huge"), fam("dij", 19683, 3, "exhaustive")],
-            "thorough": [fam("dij", 60000, 9), fam("dij", 20000, 12), fam("dij", 20000, 8, "neg"), fam("dij", 3000, 6, "huge"), fam("dij", 19683, 3, "exhaustive")],
+            "quick": [fam("dij", 800, 7), fam("dij", 300, 7, "neg"), fam("dij", 100, 5, "huge"), fam("dij", 19683, 3, "exhaustive"), fam("dij", 48, 7, "conc")],
+            "thorough": [fam("dij", 60000, 9), fam("dij", 20000, 12), fam("dij", 20000, 8, "neg"), fam("dij", 3000, 6, "huge"), fam("dij", 19683, 3, "exhaustive"), fam("dij", 1500, 8, "conc")],
         },
     },
     "C19": {
@@ -251,7 +251,7 @@ PROPS = {
         "note": "partial: schedules are sampled by the Go scheduler, not enumerated; the lock-discipline theorem over the extracted effects table is the proof-side obligation (DESIGN.md C12).",
         "theorems": ["ArgMapper.C12.guarded_race_free", "ArgMapper.C12.effects_guarded", "ArgMapper.C12.C12_race_free", "ArgMapper.C12.counterexample_two_first_uses", "ArgMapper.C12.once_concurrent"], "facts": {"r5SkipSame": "true", "r6NameTest": "true", "publishAfterUpdate": "true", "trackReaching": "true", "takeValuedNamed": "true", "hopCopies": "true", "memoCopy": "true", "r8SkipSupplied": "true", "skipRecordsInput": "false", "dupIsError": "true", "onceLockCoversCall": "true"},
         "rule": "race: every scenario (>= 4 goroutines x >= 20 rounds of Call/Convert/Redefine on shared objects).",
-        "runs": {"quick": [fam("race", 80, 4, "25", bin="harness-race")],
+        "runs": {"quick": [fam("race", 80, 4, "25", bin="harness-race"), fam("dij", 24, 7, "conc", bin="harness-race")],
                  "thorough": [fam("race", 3000, 8, "60", bin="harness-race"), fam("race", 600, 16, "50", bin="harness-race")]},
     },
 }
